@@ -15,13 +15,13 @@ BOUNDS = {
     'quick': '2 worker threads on the root builder, pre-emption bound 1 (2 for the same-dir, one-fails and deep-shared scenarios), yield point = every environment call the library makes '
              '(isfile/isdir/stat/listdir/mkdir/rename/remove/open/...) and every lock acquire; scenarios: two outputs in one new '
              'directory, in nested new directories, in directories left by the previous build, one worker failing, a worker that '
-             'builds inside a subbuild; directories d and d/a symbolic (absent / directory / with foreign content)',
+             'builds inside a subbuild, both workers building the same output (equivalent to the sequential order in which the winner goes first; P 2); directories d and d/a symbolic (absent / directory / with foreign content)',
     'thorough': 'pre-emption bound 2 (3 for the two-files-one-directory scenario), 3 workers',
 }
 ASSUMPTIONS = [
     'thread switches at environment calls and lock operations; in the families marked lines additionally before every '
     'source line of the library executed by a worker (one pre-emption); never between bytecodes of one line',
-    'the operations issued by different workers are independent (different keys, no worker queries what another builds)',
+    'the operations issued by different workers are independent (different keys, no worker queries what another builds), except in the duplicate scenario',
 ]
 WITNESSES = {'quick': ['preempted', 'both-succeeded', 'one-failed'], 'thorough': ['preempted']}
 
@@ -33,6 +33,8 @@ SCEN = {
     'both-fail': [('bf', 'd/a/f1', 'raise_before'), ('bf', 'd/f2', 'raise_after')],
     'deep-shared': [('bf', 'd/a/b/f1', 'ok'), ('bf', 'd/a/f2', 'ok')],
     'in-subbuild': [('sb-bf', 'd/f1', 'ok'), ('bf', 'd/f2', 'ok')],
+    # the same output from two threads: equivalent to the sequential order in which the winner goes first
+    'duplicate': [('bf', 'd/a/f', 'ok'), ('bf', 'd/a/f', 'ok')],
     'three': [('bf', 'd/f1', 'ok'), ('bf', 'd/f2', 'ok'), ('bf', 'd/a/f3', 'raise_after')],
 }
 
@@ -51,6 +53,8 @@ def families(tier):
         {'name': 'nested-dirs', 'params': {'P': 1, 'hist': 'BT'}, 'weight': 1},
         {'name': 'one-fails', 'params': {'P': 1, 'hist': 'BT'}, 'weight': 1},
         {'name': 'same-dir', 'params': {'P': 1, 'hist': 'T', 'lines': True}, 'weight': 2},
+        {'name': 'duplicate', 'params': {'P': 2, 'hist': 'T'}, 'weight': 2},
+        {'name': 'duplicate', 'params': {'P': 1, 'hist': 'BT'}, 'weight': 1},
         {'name': 'same-dir', 'params': {'P': 2, 'hist': 'T'}, 'weight': 2},
         {'name': 'one-fails', 'params': {'P': 2, 'hist': 'T'}, 'weight': 2},
         {'name': 'deep-shared', 'params': {'P': 2, 'hist': 'T'}, 'weight': 2},
@@ -65,6 +69,8 @@ def families(tier):
         {'name': 'both-fail', 'params': {'P': 2, 'hist': 'T'}, 'weight': 3},
         {'name': 'deep-shared', 'params': {'P': 2, 'hist': 'T'}, 'weight': 3},
         {'name': 'three', 'params': {'P': 1, 'hist': 'T'}, 'weight': 4},
+        {'name': 'duplicate', 'params': {'P': 3, 'hist': 'T'}, 'weight': 3},
+        {'name': 'duplicate', 'params': {'P': 2, 'hist': 'BT'}, 'weight': 3},
         {'name': 'one-fails', 'params': {'P': 1, 'hist': 'T', 'lines': True}, 'weight': 3},
         {'name': 'in-subbuild', 'params': {'P': 1, 'hist': 'BT', 'reuse': True, 'lines': True}, 'weight': 3},
         {'name': 'nested-dirs', 'params': {'P': 1, 'hist': 'T', 'lines': True}, 'weight': 3},
@@ -81,6 +87,7 @@ class Prog:
     def __init__(self, w, fs, ops, contents, version):
         self.w, self.fs, self.ops, self.contents, self.version = w, fs, ops, contents, version
         self.calls = []
+        self.order = None
 
     def op(self, b, i):
         kind, rel, mode = self.ops[i]
@@ -104,6 +111,11 @@ class Prog:
             return 'exc:' + exc_name(e)
 
     def sequential(self, b):
+        if self.order:
+            res = {}
+            for i in self.order:
+                res[i] = self.op(b, i)
+            return [res[i] for i in range(len(self.ops))]
         return [self.op(b, i) for i in range(len(self.ops))]
 
 
@@ -158,6 +170,8 @@ def harness(eng, fam, P):
             return
         except Exception as e:
             impl = ('exc', e)
+        if fam == 'duplicate' and impl[0] == 'ok' and isinstance(impl[1][1], list) and not isinstance(impl[1][0], list):
+            pr.order = [1, 0]
         r = ref_build(w.ref, w.cache, state, pr.sequential)
         ref = (r[0], r[1])
         eng.path_info['schedule'] = info.get('trace')
